@@ -10,10 +10,25 @@
 //	qerr      queryParseError.Error for the library's ParseError (Offset, Token)
 //	yaml      yamlParseError.Error for the index go-yaml reported
 //
-// oracles (model-free, on the whole command run in-process): a byte of a well-formed JSON stream /
-// jq query / YAML text is corrupted; the line, excerpt and caret the command prints are compared
-// with the position of the offending byte computed directly from the input bytes (the offending
-// byte itself is the one encoding/json alone, resp. the library's ParseError, names).
+// oracles (model-free, on the whole command run in-process through cli.run): a byte of a well-formed
+// JSON stream / jq query / YAML text is corrupted; the line, excerpt and caret the command prints
+// are compared with the position of the offending byte computed directly from the input bytes
+// (the offending byte itself is the one encoding/json alone, resp. the library's ParseError, names).
+//
+// What the oracle deliberately accepts (see util.go):
+//   - truncated input (io.ErrUnexpectedEOF): the line the end of input lies on, or — when the text
+//     ends with a terminator — the line before it, caret at the line end;
+//   - non-seekable input: the excerpt may stop where the reader stood, before the offending rune
+//     is complete (the command cannot show bytes it has not read);
+//   - a line that is not valid UTF-8: the excerpt may stop up to 3 bytes short and the caret is only
+//     bounded (the width of invalid bytes is unspecified).
+//
+// Stable keys of the defect classes found on the tree as delivered (each is reported once, with
+// its smallest replay first): lone-cr-window-linecount, lineinfo:ufffd-before-fault,
+// stream-token-offset, lexer-stale-token-stringstart, lexer-invalid-utf8-token,
+// yaml-index-counts-characters, yaml-error-without-index; window-readahead-reset is the key of D8
+// (fixed in cli/inputs.go; reported again if the fix is reverted). Any other wrong position gets
+// a key `lineinfo:<kind>:<details>` / `lexer-offset:<details>`.
 package main
 
 import (
